@@ -3,6 +3,7 @@ package c17group
 import (
 	"context"
 	"fmt"
+	"runtime"
 	"sort"
 	"sync"
 	"testing"
@@ -379,4 +380,125 @@ func runReps(p Plan) (vk.Outcome, error) {
 func TestGroup(t *testing.T) {
 	theT = t
 	vk.Run(t, suite, "group", 1000, genPlan, runReps)
+}
+
+// ---------------------------------------------------------------------------------------------
+// stop storm: many rounds of "goroutines keep registering Do while the group is stopped"
+
+type StormPlan struct {
+	Rounds     int    `json:"rounds"`
+	Goroutines int    `json:"goroutines"`
+	StopKind   string `json:"stop_kind"` // StopAndWait | Stop+StopAndWait | ParentCancel | ParentCancel+Stoppers
+	RunMs      int    `json:"run_ms"`
+}
+
+func genStorm(t *rapid.T) StormPlan {
+	return StormPlan{Rounds: rapid.IntRange(5, 30).Draw(t, "rounds"), Goroutines: rapid.IntRange(1, 6).Draw(t, "goroutines"),
+		StopKind: rapid.SampledFrom([]string{"StopAndWait", "Stop+StopAndWait", "ParentCancel", "ParentCancel", "ParentCancel+Stoppers"}).Draw(t, "stopkind"),
+		RunMs:    rapid.SampledFrom([]int{0, 0, 1}).Draw(t, "run")}
+}
+
+func runStorm(p StormPlan) (out vk.Outcome, verr error) {
+	var stuck string
+	func() {
+		defer func() {
+			if r := recover(); r != nil {
+				stuck = fmt.Sprint(r)
+			}
+		}()
+		synctest.Test(theT, func(t *testing.T) {
+			defer func() {
+				if r := recover(); r != nil {
+					verr = vk.Violf("panic", "panic inside bubble: %v", r)
+				}
+			}()
+			for round := 0; round < p.Rounds && verr == nil; round++ {
+				parent, parentCancel := context.WithCancel(context.Background())
+				g := xsync.NewGroup(parent)
+				var mu sync.Mutex
+				var stopReturned int64
+				var late, active int
+				quit := make(chan struct{})
+				var wg sync.WaitGroup
+				for k := 0; k < p.Goroutines; k++ {
+					wg.Add(1)
+					go func() {
+						defer wg.Done()
+						for {
+							select {
+							case <-quit:
+								return
+							default:
+							}
+							g.Do(func(ctx context.Context) {
+								mu.Lock()
+								active++
+								if stopReturned != 0 {
+									late++
+								}
+								mu.Unlock()
+								runtime.Gosched() // (no fake-time sleep here: the registrars below never block, so fake time cannot advance)
+								mu.Lock()
+								active--
+								mu.Unlock()
+							})
+						}
+					}()
+				}
+				for y := 0; y < 1+round%5; y++ { // let the registrars get going
+					runtime.Gosched()
+				}
+				switch p.StopKind {
+				case "Stop+StopAndWait":
+					g.Stop()
+					g.StopAndWait()
+				case "ParentCancel":
+					parentCancel()
+					g.StopAndWait()
+				case "ParentCancel+Stoppers":
+					parentCancel()
+					var sw sync.WaitGroup
+					for s := 0; s < 2; s++ {
+						sw.Add(1)
+						go func() { defer sw.Done(); g.StopAndWait() }()
+					}
+					g.StopAndWait()
+					sw.Wait()
+				default:
+					g.StopAndWait()
+				}
+				mu.Lock()
+				stopReturned = sk.Tick()
+				running := active
+				mu.Unlock()
+				if running != 0 {
+					verr = vk.Violf("barrier", "round %d: StopAndWait returned while %d functions started through Do were still running", round, running)
+				}
+				close(quit)
+				wg.Wait()
+				synctest.Wait() // anything that slipped through has started by now
+				time.Sleep(5 * time.Millisecond)
+				synctest.Wait()
+				mu.Lock()
+				l := late
+				mu.Unlock()
+				if l > 0 && verr == nil {
+					verr = vk.Violf("started-after-stop", "round %d (%s): %d functions registered with Do concurrently with the stop started after StopAndWait had returned", round, p.StopKind, l)
+				}
+				parentCancel()
+			}
+		})
+	}()
+	if stuck != "" && verr == nil {
+		verr = vk.Violf("stuck", "%s", stuck)
+	}
+	out.Label("stop:" + p.StopKind)
+	out.NonTrivial = p.Goroutines >= 2
+	out.Execs = p.Rounds
+	return out, verr
+}
+
+func TestStopStorm(t *testing.T) {
+	theT = t
+	vk.Run(t, suite, "stop-storm", 400, genStorm, runStorm)
 }
